@@ -1,13 +1,13 @@
 (* C01 -- Parsing any text terminates and never raises.
    Property theorems only; proofs live in CssV.TokenizerFacts and CssV.ParseTotalFacts.
    Models: CssV.Tokenizer.tokenize (shared), CssV.Upto.upto (C04's model of _tokensupto2),
-   CssV.Gen.Quote.stringtokenvalue (regenerated from util.Base._stringtokenvalue), and the
+   CssV.Gen.StrTokenValue.stringtokenvalue (regenerated from util.Base._stringtokenvalue), and the
    crash-site models of CssV.ParseTotal (charset_rule, color_fn, default handlers, parse_loop,
    parse_outcome), all following the repaired code; the *_pinned variants are the code before
    the fix: commits.
    NOT a theorem: the "time polynomial in the input length" clause (CPython's sre engine is
    outside the model); it is monitored by measurement in harness/props/c01.py.                *)
-From CssV Require Import Base Regex Tokenizer TokenizerFacts Quote Gen.Quote Upto ParseTotal ParseTotalFacts.
+From CssV Require Import Base Regex Tokenizer TokenizerFacts Quote Gen.StrTokenValue Upto ParseTotal ParseTotalFacts.
 Local Open Scope nat_scope.
 
 (* tokenizing terminates for every text, both modes, comments kept or dropped (re-export) *)
